@@ -3,10 +3,11 @@
   naturals.  Each property contributes `Handlers/H<id>.lean` exporting a list; append it here.
 -/
 import Handlers.Basic
+import Handlers.HC06
 
 namespace Handlers
 
 def all : List (String × (List Nat → Option String)) :=
-  []
+  [] ++ hC06
 
 end Handlers
